@@ -331,7 +331,12 @@ impl TimeZone {
             let possible = self.get_possible_epoch_ns_for(earlier, provider)?;
             // f. Assert: possibleEpochNs is not empty.
             // g. Return possibleEpochNs[0].
-            return Ok(possible[0]);
+            // NOTE: With time zone data in which another transition lies within a day of
+            // the skipped time, the shifted date-time may be skipped as well; report that
+            // as an error rather than indexing into an empty list.
+            return possible.first().copied().ok_or_else(|| {
+                TemporalError::range().with_message("Could not disambiguate the skipped time.")
+            });
         }
         // 17. Assert: disambiguation is compatible or later.
         // 18. Let timeDuration be TimeDurationFromComponents(0, 0, 0, 0, 0, nanoseconds).
@@ -350,10 +355,12 @@ impl TimeZone {
         // 22. Set possibleEpochNs to ? GetPossibleEpochNanoseconds(timeZone, laterDateTime).
         let possible = self.get_possible_epoch_ns_for(later, provider)?;
         // 23. Set n to possibleEpochNs's length.
-        let n = possible.len();
         // 24. Assert: n ≠ 0.
         // 25. Return possibleEpochNs[n - 1].
-        Ok(possible[n - 1])
+        // NOTE: See the note on the `earlier` branch above.
+        possible.last().copied().ok_or_else(|| {
+            TemporalError::range().with_message("Could not disambiguate the skipped time.")
+        })
     }
 
     pub(crate) fn get_start_of_day(
